@@ -4,6 +4,8 @@
    Cde.write_courses; the real files are compared with these and checked by Cde.import_okb inside Coq on every run). *)
 From Coq Require Import List ZArith Lia Bool Arith.
 Require Import HP1 Cao1 Cao3 Json Cde CdeThms CdeWriteOk.
+Require CdeSpec CdeRefine CdeIds WriteDoc WriteDocThms.
+From Coq Require Import Permutation String.
 Import ListNotations.
 Open Scope nat_scope.
 
@@ -37,6 +39,54 @@ Theorem C05_file : forall ps cs K a,
   import_okb ps cs (write_regs a ps cs) (write_courses a cs) = true.
 Proof. intros ps cs K a NDp NDc H HK. apply (written_file_ok ps cs NDp NDc K a H HK). Qed.
 
-Check C05_file. Check C05.
+(* the hypothesis "pairwise distinct ids" holds for every export the reader accepts whose registration and course keys are canonical decimal
+   numbers (what the CdE-Datenbank writes; Rust's parse would also accept "07" and "+7" for 7, and two such keys would collide): the ids are
+   the parsed keys of JSON objects, whose keys are pairwise distinct *)
+Theorem C05_ids_distinct : forall data track ign_c ign_a ff of ps cs amb,
+  read_fields data track ign_c ign_a ff of = ROk (ps, cs, amb) -> CdeIds.keys_canonical data = true ->
+  NoDup (map rp_dbid ps) /\ NoDup (map rc_dbid cs).
+Proof.
+  intros data track ign_c ign_a ff of ps cs amb H Hk. rewrite CdeRefine.read_fields_refines_spec in H.
+  apply (CdeIds.spec_read_ids_distinct data track ign_c ign_a ff of ps cs amb H Hk).
+Qed.
+(* so: for the problem read from ANY accepted export with canonical keys, the file written for ANY hard-feasible assignment passes import_okb *)
+Theorem C05_export_file : forall data track ign_c ign_a ff of ps cs amb K a,
+  read_fields data track ign_c ign_a ff of = ROk (ps, cs, amb) -> CdeIds.keys_canonical data = true ->
+  HardOK_K (map to_course cs) (map to_part ps) K a ->
+  (forall c, K c = true -> c < nc (map to_course cs) /\ c_fixed (crs (map to_course cs) c) = false) ->
+  import_okb ps cs (write_regs a ps cs) (write_courses a cs) = true.
+Proof.
+  intros data track ign_c ign_a ff of ps cs amb K a H Hk Hh HK.
+  destruct (C05_ids_distinct data track ign_c ign_a ff of ps cs amb H Hk) as [NDp NDc].
+  apply (C05_file ps cs K a NDp NDc Hh HK).
+Qed.
+
+(* at DOCUMENT level: WriteDoc.write_doc is the whole JSON value cdedb::write serialises (every key; compared with every file the real binary
+   writes, CorrDoc).  The import side (WriteDoc.import_of_doc: strict reading -- exactly the seven keys, the output schema version, kind
+   "partial", per registration exactly one track = the selected one with a course_id, per course exactly one segment = the selected track and
+   optionally one field) reads from it the event id and exactly the registration pairs and course rows it was made from, each once: the file
+   names only what write_regs / write_courses list (which C05_file judges) and only the selected track *)
+Theorem C05_document : forall eid tid regs crs rooms sm ts,
+  NoDup (map fst regs) -> NoDup (map fst crs) ->
+  (forall r, In r regs -> WriteDocThms.in_u64 (fst r) /\ WriteDocThms.in_u64 (snd r)) -> (forall c, In c crs -> WriteDocThms.in_u64 (fst c)) ->
+  exists im, WriteDoc.import_of_doc tid (WriteDoc.write_doc eid tid regs crs rooms sm ts) = Some im /\
+             WriteDoc.im_event im = eid /\ WriteDoc.im_summary im = sm /\ Permutation (WriteDoc.im_regs im) regs /\
+             Permutation (WriteDoc.im_courses im) (WriteDocThms.course_rows crs rooms).
+Proof. exact WriteDocThms.import_of_write_doc. Qed.
+(* the keys are the decimal renderings of the ids and parse back to them (all u64 values) *)
+Theorem C05_keys_parse_back : forall z, (0 <= z < 18446744073709551616)%Z -> parse_u64 (zstr z) = Some z.
+Proof. exact WriteDocThms.parse_zstr. Qed.
+(* non-vacuity: a document for two registrations and two courses with a possible-rooms field *)
+Example C05_document_example :
+  match WriteDoc.import_of_doc 3 (WriteDoc.write_doc 1 3 [(10, 2); (9, 1)]%Z [(1, true); (2, false)]%Z (Some ("raum"%string, ["8, 5"; ""]%string)) "s"%string "t"%string) with
+  | Some im => WriteDoc.im_regs im = [(10, 2); (9, 1)]%Z /\ List.length (WriteDoc.im_courses im) = 2
+  | None => False end.
+Proof. vm_compute. split; reflexivity. Qed.
+
+Check C05_file. Check C05. Check C05_ids_distinct. Check C05_export_file. Check C05_document. Check C05_keys_parse_back.
 Print Assumptions C05.
 Print Assumptions C05_file.
+Print Assumptions C05_ids_distinct.
+Print Assumptions C05_export_file.
+Print Assumptions C05_document.
+Print Assumptions C05_keys_parse_back.
